@@ -26,11 +26,24 @@ def seeded():
         print("| %s | %s | %s | %s |" % (name, clip(m.get("summary", ""), 170).replace("|", "\\|"), caught, clip(notes, 150).replace("|", "\\|")))
 
 
+def findings_open():
+    kf = json.load(open(V + "/known_findings.json"))
+    by = {}
+    for e in kf:
+        by.setdefault((e["property"], e["status"]), []).append(e)
+    return _open(by)
+
+
 def findings():
     kf = json.load(open(V + "/known_findings.json"))
     by = {}
     for e in kf:
         by.setdefault((e["property"], e["status"]), []).append(e)
+    _open(by)
+    _fixed(by)
+
+
+def _open(by):
     print("\n**Open findings (suppressed as KNOWN-FINDING, by exact key)**\n")
     print("| property | keys | what |")
     print("|---|---|---|")
@@ -45,6 +58,9 @@ def findings():
             groups.setdefault(clip(e["what"], 260), []).append(e["key"])
         for w, ks in groups.items():
             print("| %s | %s | %s |" % (p, "<br>".join("`%s`" % k for k in ks[:8]) + (" …(%d)" % len(ks) if len(ks) > 8 else ""), w.replace("|", "\\|")))
+
+
+def _fixed(by):
     print("\n**Fixed in falco (entries `fixed: property=<id> <commit> <what failed>`; they suppress nothing)**\n")
     for (p, st), es in sorted(by.items()):
         if st != "fixed":
